@@ -76,6 +76,8 @@ pub enum XcpError {
 /// What any StatusUpdater is assumed to do (the two provided implementations are checked against it):
 /// an accepted update is counted; a refused one is a failed required step.
 pub trait StatusUpdater {
+    /// identity of the channel the accepted updates are delivered to (negative: nowhere)
+    spec fn sink(&self) -> int;
     fn send(&self, update: StatusUpdate, Tracked(w): Tracked<&mut World>) -> (r: Result<()>)
         ensures
             fr_chan(*old(w), *final(w)), final(w).faults >= old(w).faults,
